@@ -120,9 +120,21 @@ func v4Packet(variant int) []byte {
 		o(224, long[:255]...)
 		o(224, long[255:]...)
 	}
+	if variant%7 == 5 {
+		// the same code three times (RFC 3396 concatenation of three fragments)
+		o(225, bytes.Repeat([]byte{0x61}, 255)...)
+		o(225, bytes.Repeat([]byte{0x62}, 255)...)
+		o(225, bytes.Repeat([]byte{0x63}, 17)...)
+	}
+	if variant%7 == 6 {
+		b[2] = 16 // hardware address length 16: the whole chaddr field is significant
+		copy(b[28:44], bytes.Repeat([]byte{0xa0 + byte(variant%16)}, 16))
+	}
 	b = append(b, 255)
-	for len(b) < 300 {
-		b = append(b, 0)
+	if variant%9 != 4 { // one variant in nine stays shorter than the customary 300 bytes
+		for len(b) < 300 {
+			b = append(b, 0)
+		}
 	}
 	return b
 }
@@ -146,11 +158,12 @@ func v6Options(variant int) [][]byte {
 		cat(be16(3), be16(1), []byte{2, 0, 0, 0xcc, 0xdd, v}),                                   // LL
 		cat(be16(4), bytes.Repeat([]byte{0x10 + v}, 16)),                                        // UUID
 		cat(be16(0x00ff), []byte("opaque-duid-"), []byte{v}),                                    // a type the library keeps opaque
+		cat(be16(1), be16(1), be32(0x2b000000|uint32(variant))),                                 // DUID-LLT with an empty link-layer address
 	}
 	v4inner := v4Packet(variant)
 	return [][]byte{
-		opt6(1, duids[variant%5]),
-		opt6(2, duids[(variant+2)%5]),
+		opt6(1, duids[variant%6]),
+		opt6(2, duids[(variant+2)%6]),
 		opt6(3, []byte{0xaa, 0xbb, 0, v}, be32(1000), be32(2000), iaAddr("2001:db8::10", status6(0, "ok"), opt6(65010, []byte("addr-private"))), iaAddr("2001:db8::11"), status6(2, "NoAddrsAvail"), opt6(65011, []byte("ia-private-"), []byte{v})),
 		opt6(4, []byte{0xab, 0xcd, 0, v}, iaAddr("2001:db8:1::5"), status6(0, "fine")),
 		opt6(25, []byte{0xcc, 0, 0, v}, be32(100), be32(200), iaPrefix("2001:db8:100::", 56, status6(0, "pd ok")), iaPrefix("2001:db8:200::", 60, opt6(65012, []byte("prefix-private"))), iaPrefix("::", 0), opt6(65013, []byte{v, v, v})),
@@ -179,6 +192,9 @@ func v6Options(variant int) [][]byte {
 		opt6(97, opt6(98, []byte{24, 48, 16, 0x80, 10, 9, 8, 0}, ip6("2001:db8:97::")), opt6(99, []byte{0x81, 0x20}, be16(1420))),
 		opt6(135, be16(3547)),
 		opt6(65001, []byte("generic option payload "+string(rune('a'+variant%26)))),
+		opt6(65002), // zero-length unknown option
+		opt6(3, []byte{0xaa, 0xbb, 1, v}, be32(5), be32(6)),                              // a second IA_NA, without addresses
+		opt6(17, be32(99999), cat(be16(65000), be16(0), be16(7), be16(2), []byte{v, v})), // vendor opts with an empty and an unknown sub-option
 	}
 }
 
@@ -202,7 +218,12 @@ func v6Relay(variant int, depth int) []byte {
 			typ = 13
 		}
 		hdr := cat([]byte{typ, byte(d)}, ip6(fmt.Sprintf("2001:db8:ffff::%x", d+1)), ip6(fmt.Sprintf("fe80::%x", variant+1)))
-		inner = cat(hdr, opt6(18, []byte(fmt.Sprintf("relay-if-%d", d))), opt6(9, inner), opt6(37, be32(3561), []byte("rid")), opt6(135, be16(547+d)), opt6(79, be16(1), []byte{2, 1, 1, 1, 1, byte(d)}))
+		if (variant+d)%2 == 0 {
+			inner = cat(hdr, opt6(18, []byte(fmt.Sprintf("relay-if-%d", d))), opt6(9, inner), opt6(37, be32(3561), []byte("rid")), opt6(135, be16(547+d)), opt6(79, be16(1), []byte{2, 1, 1, 1, 1, byte(d)}))
+		} else {
+			// the relay-message option first, other options after it
+			inner = cat(hdr, opt6(9, inner), opt6(18, []byte(fmt.Sprintf("relay-if-%d", d))), opt6(65003, []byte{byte(d)}))
+		}
 	}
 	return inner
 }
@@ -531,7 +552,7 @@ func (st *bufState) start() {
 		st.conn = NewConn(s, "rconn", &net.UDPAddr{Port: 547})
 		st.net = NewNet(s)
 		for i := 0; i < npool; i++ {
-			st.pool = append(st.pool, make([]byte, 2048))
+			st.pool = append(st.pool, make([]byte, 8192))
 			st.reads = append(st.reads, 0)
 		}
 		j := newJoiner(s, "actors")
@@ -553,7 +574,7 @@ func (st *bufState) start() {
 				private := append([]byte(nil), buf[:n]...)
 				refMsg, err := decodeAny(v6, private)
 				if err != nil {
-					st.decodeFailures = append(st.decodeFailures, err.Error())
+					st.decodeFailures = append(st.decodeFailures, fmt.Sprintf("read %d (%d bytes, v6=%v): %v", k, n, v6, err))
 					continue
 				}
 				m, err := decodeAny(v6, buf[:n]) // the decode under test: from the shared, reusable buffer
@@ -667,3 +688,25 @@ func (st *bufState) use(h *heldMsg, w int) {
 }
 
 func init() { register(bufScenario()) }
+
+// corpusCheck decodes every corpus variant once (./run.sh selftest corpus) and
+// reports the ones the library does not accept.
+func corpusCheck() []string {
+	var bad []string
+	try := func(name string, v6 bool, wire []byte) {
+		if _, err := decodeAny(v6, append([]byte(nil), wire...)); err != nil {
+			bad = append(bad, fmt.Sprintf("%s (%d bytes): %v", name, len(wire), err))
+		}
+	}
+	for v := 0; v < 40; v++ {
+		try(fmt.Sprintf("v4#%d", v), false, v4Packet(v))
+		try(fmt.Sprintf("v6#%d", v), true, v6Message(v))
+		for d := 1; d <= 3; d++ {
+			try(fmt.Sprintf("v6relay#%d/%d", v, d), true, v6Relay(v, d))
+		}
+		for i, o := range v6Options(v) {
+			try(fmt.Sprintf("v6#%d option %d", v, i), true, cat([]byte{1, 0, 0, 1}, o))
+		}
+	}
+	return bad
+}
